@@ -4196,7 +4196,7 @@ static WBXMLError xml_fill_header(WBXMLEncoder *encoder, WBXMLBuffer *header)
 static WBXMLError xml_encode_tag(WBXMLEncoder *encoder, WBXMLTreeNode *node)
 {
     const WB_TINY *ns = NULL;
-    WB_UTINY i;
+    WB_ULONG i;
 
     /* Set as current Tag */
     if (node->name->type == WBXML_VALUE_TOKEN)
@@ -4257,7 +4257,7 @@ static WBXMLError xml_encode_tag(WBXMLEncoder *encoder, WBXMLTreeNode *node)
  */
 static WBXMLError xml_encode_end_tag(WBXMLEncoder *encoder, WBXMLTreeNode *node)
 {
-    WB_UTINY i;
+    WB_ULONG i;
 
     if (encoder->xml_gen_type == WBXML_GEN_XML_INDENT) {
 
@@ -4422,7 +4422,7 @@ static WBXMLError xml_encode_text(WBXMLEncoder *encoder, WBXMLTreeNode *node)
 {
     WBXMLBuffer *str = node->content;
     WBXMLBuffer *tmp = NULL;
-    WB_UTINY i = 0;
+    WB_ULONG i = 0;
 
     if (encoder->in_cdata) {
         /* If we are in a CDATA section, do not modify the text to encode */
